@@ -73,7 +73,13 @@ def h5Create (v : Val) : Option DsetVal :=
       match dt.kind with
       | .object | .unicodeU => Option.none
       | _ => some (.num dt sh d)
-  | .int _ | .bool _ | .float _ | .npscalar _ _ =>
+  | .int i =>
+      -- np.asarray(python int): int64 when it fits, uint64 for 2^63 .. 2^64-1, an object array (refused by h5py) beyond
+      if fitsInt DType.int64 i then some (.num DType.int64 [] (encodeInt DType.int64 i))
+      else if fitsInt { kind := .uint, size := 8 } i then
+        some (.num { kind := .uint, size := 8 } [] (encodeInt { kind := .uint, size := 8 } i))
+      else Option.none
+  | .bool _ | .float _ | .npscalar _ _ =>
       (scalarItem v).map fun (dt, d) => .num dt [] d
   | .none | .dict _ | .bytes _ => Option.none     -- (bytes would be stored as an opaque string; never produced by to_dict)
   | .tuple xs | .list xs =>
